@@ -381,7 +381,7 @@ def compare_features(flows, A, B, depth=0):
         for fa in da:
             match = None
             for fb in rem:
-                if fa[1] == fb[1] and fa[2] == fb[2] and fa[0] != fb[0]:
+                if fa[1] == fb[1] and fa[2] == fb[2] and fa[3:] == fb[3:] and fa[0] != fb[0]:
                     match = fb
                     break
             if match is None:
